@@ -84,7 +84,10 @@ SubArgs(s, newargs) ==
   IF IsAtom(s) THEN PathFromArgs(s, newargs)
   ELSE LET fp == First(s) IN
        IF IsAtom(fp) /\ IsOp(fp, 1) THEN s
-       ELSE LET f1 == IF IsPair(fp) THEN SubArgs(fp, newargs) ELSE fp
+       \* ((X) A B ..) applies X to the operands as written: nothing to substitute (since the repair of the optimiser;
+       \* before it the head was substituted into and the operands treated as code)
+       ELSE IF IsPair(fp) THEN s
+       ELSE LET f1 == fp
                 pl == Proper(Rest(s))
             IN IF pl[1] THEN Cons(f1, Enlist(SubArgsList(pl[2], newargs))) ELSE PathFromArgs(s, newargs)
 
@@ -131,7 +134,8 @@ OptList(items, fuel) ==
 RuleVarChange(r, fuel) ==
   IF ~IsApplyQ(r) THEN Ok(r)
   ELSE LET new == SubArgs(ApplyQBody(r), ApplyQArgs(r)) IN
-       IF SeemsConstant(new) THEN Opt(new, fuel)
+       IF IsPair(new) /\ IsPair(First(new)) THEN Ok(new)     \* ((X) A B ..) does not look at its environment
+       ELSE IF SeemsConstant(new) THEN Opt(new, fuel)
        ELSE LET pl == Proper(new) IN
             IF ~pl[1] THEN Ok(r)
             ELSE LET os == OptList(pl[2], fuel) IN
@@ -156,6 +160,7 @@ FirstChange(r, k, fuel) ==
 Opt(r, fuel) ==
   IF fuel <= 0 THEN Unk
   ELSE IF IsAtom(r) THEN Ok(r)
+  ELSE IF IsPair(First(r)) THEN Ok(r)      \* an operator-in-parentheses form: its operands are data, no rule applies
   ELSE LET s == FirstChange(r, 1, fuel - 1) IN
        IF s[1] # "ok" THEN s ELSE IF s[2] = r THEN Ok(r) ELSE Opt(s[2], fuel - 1)
 
